@@ -87,6 +87,18 @@ def specServerLabels (id : Bytes) (i : Nat) (user fname : Bytes) : Spec.Storage.
 def badValue (v : Bytes) : Bool :=
   (match v with | c :: _ => c == 32 || c == 9 | [] => false) || v.getLast? == some 13
 
+def nodupB {α : Type} [BEq α] : List α → Bool
+  | [] => true
+  | x :: xs => !xs.contains x && nodupB xs
+
+/-- the integrity predicate `C19.WF` of the proofs, evaluated on every model state -/
+def wfCheck (db : DB) : Bool :=
+  nodupB (db.records.map RecordRow.rkey) &&
+  nodupB (db.labels.map fun l => (l.upload, l.rid, l.name)) &&
+  db.labels.all (fun l => (db.records.map RecordRow.rkey).contains l.rkey) &&
+  db.records.all (fun r => db.labels.any fun l =>
+    l.upload == r.upload && l.rid == r.rid && l.name == uploadKey && l.value == r.upload)
+
 def handleHist (l : Line) : IO Unit := do
   let ups := parseUps (l.getD "ups")
   let qs := (l.hexList? "qs").getD []
@@ -111,7 +123,7 @@ def handleHist (l : Line) : IO Unit := do
     else
       IO.println s!"obs {id} up{i} ok=0"
     i := i + 1
-  IO.println s!"obs {id} uploads n={db.uploads.length} err=false"
+  IO.println s!"obs {id} uploads n={db.uploads.length} err=false wf={if wfCheck db then 1 else 0}"
   let allLines := stored.flatMap (·.2)
   let n7 := allLines.any fun ln => ln.labels.any (fun kv => badValue kv.2) || ln.content.getLast? == some 13
   let n8 := allLines.any fun ln => ln.labels.any (fun kv => kv.2.isEmpty)
